@@ -40,12 +40,15 @@ REWRITE = {
     '"sync/atomic"': '"%s/verifshim/vatomic"' % MOD,
 }
 RUNTIME = '"%s/verifshim/vruntime"' % MOD
+VTIME = '"%s/verifshim/vtime"' % MOD
+# files whose "time" import is replaced by the virtual-timer shim
+VTIME_FILES = {"core/outlier/recycler.go", "core/outlier/retryer.go"}
 
 IMPORT_LINE = re.compile(r'^(\s*)((?:[A-Za-z_][A-Za-z0-9_]*\s+)?)("[^"]+")\s*$')
 SINGLE_IMPORT = re.compile(r'^import\s+((?:[A-Za-z_][A-Za-z0-9_]*\s+)?)("[^"]+")\s*$')
 
 
-def rewrite_source(src):
+def rewrite_source(src, vtime=False):
     """returns (new_src, n_rewritten)"""
     lines = src.split("\n")
     only_gosched = True
@@ -85,6 +88,10 @@ def rewrite_source(src):
             new = RUNTIME
             if not alias:
                 alias = "runtime "
+        elif path == '"time"' and vtime:
+            new = VTIME
+            if not alias:
+                alias = "time "
         if new:
             lines[i] = "%s%s%s" % (indent, alias, new)
             n += 1
@@ -113,7 +120,7 @@ def main():
             p = os.path.join(full, fn)
             with open(p, encoding="utf-8") as f:
                 src = f.read()
-            new, n = rewrite_source(src)
+            new, n = rewrite_source(src, vtime=(d + "/" + fn) in VTIME_FILES)
             if n == 0:
                 continue
             dst = os.path.join(out, "src", d, fn)
